@@ -4,6 +4,7 @@ import (
 	"bytes"
 	"encoding/gob"
 	"fmt"
+	"sort"
 	"strings"
 	"sync"
 	"testing"
@@ -38,9 +39,10 @@ func (b blobSpec) name() string { return b.Cfg.Name + "/" + sideName(b.Client) }
 var blobPoint = point{A: 1, B: 1, Infl: inflNone}
 
 type blobCache struct {
-	mu  sync.Mutex
-	m   map[string][]byte
-	bad map[string]string
+	mu   sync.Mutex
+	m    map[string][]byte // private copies taken when the export was made
+	live map[string][]byte // the slices as MarshalBinary returned them
+	bad  map[string]string
 }
 
 // get returns the serialised state of the blob's reference execution (uncorrupted, export point
@@ -58,8 +60,26 @@ func (c *blobCache) get(t *testing.T, p *world.PKI, b blobSpec, seed uint64) (bi
 	if o.Stage != stRan || len(o.Bin) == 0 {
 		c.bad[b.name()] = fmt.Sprintf("reference execution (uncorrupted) did not resume: stage=%s %s %s", o.Stage, o.Detail, o.Panic)
 	}
-	c.m[b.name()] = o.Bin
-	return o.Bin, c.bad[b.name()]
+	// o.Bin is the slice MarshalBinary returned. Keep it as it is (live) next to a private copy: bytes handed
+	// to the application must not change when something else is exported later.
+	c.live[b.name()] = o.Bin
+	c.m[b.name()] = bytes.Clone(o.Bin)
+	return c.m[b.name()], c.bad[b.name()]
+}
+
+// changed lists the blobs whose bytes, as returned by MarshalBinary, no longer equal the copy taken at
+// that moment.
+func (c *blobCache) changed() []string {
+	c.mu.Lock()
+	defer c.mu.Unlock()
+	var out []string
+	for name, live := range c.live {
+		if !bytes.Equal(live, c.m[name]) {
+			out = append(out, name)
+		}
+	}
+	sort.Strings(out)
+	return out
 }
 
 func blobRefFailed(b blobSpec, why string) run.Outcome {
@@ -422,7 +442,7 @@ func TestC19(t *testing.T) {
 		}
 	}
 	// Part 3
-	cache := &blobCache{m: map[string][]byte{}, bad: map[string]string{}}
+	cache := &blobCache{m: map[string][]byte{}, live: map[string][]byte{}, bad: map[string]string{}}
 	blobs := blobSpecs(cfgs, thorough)
 	for _, client := range []bool{true, false} {
 		client := client
@@ -460,7 +480,9 @@ func TestC19(t *testing.T) {
 		}
 		orig, err := decodeMirror(bin)
 		if err != nil {
-			t.Fatalf("C19: mirror decode of %s: %v", b.name(), err)
+			why := fmt.Sprintf("the exported state does not decode with the independent decoder: %v", err)
+			cases = append(cases, run.Case{ID: "field/" + b.name() + "/reference", Run: func(t *testing.T) run.Outcome { return blobRefFailed(b, why) }})
+			continue
 		}
 		for k, m := range fieldMutations(orig) {
 			k := k
@@ -468,6 +490,17 @@ func TestC19(t *testing.T) {
 			cases = append(cases, run.Case{ID: "field/" + b.name() + "/" + m.Field, Run: func(t *testing.T) run.Outcome { return fieldCase(t, p, cache, b, k, seed) }})
 		}
 	}
+	// Part 2c: the bytes of every reference export, as returned by MarshalBinary, after all the other
+	// exports of this process have happened
+	cases = append(cases, run.Case{ID: "export-stability/all-reference-blobs", Run: func(t *testing.T) run.Outcome {
+		ch := cache.changed()
+		o := run.Outcome{NonTrivial: true, Class: "export-stability", Evals: len(blobs)}
+		if len(ch) > 0 {
+			o.Key = "exported-bytes-changed-after-a-later-export"
+			o.Violation = fmt.Sprintf("the byte slices returned by State.MarshalBinary for %d of %d exports changed after later exports were made (e.g. %s): an application that serialises several connections before resuming gets corrupted state", len(ch), len(blobs), ch[0])
+		}
+		return o
+	}})
 	// Part 1b: endpoints configured for DTLS 1.2 AND 1.3 that negotiated DTLS 1.2 (the exported state is a
 	// DTLS 1.2 state; the resume uses the endpoint's own options)
 	for _, cf := range versionRangeConfigs() {
